@@ -148,3 +148,47 @@ func VerifC09Values() {
 		nd.Assert(got == zero, "C09: an optional configuration value that is missing leaves the field untouched")
 	}
 }
+
+// C17 scalars: a small family of CONCRETE integer and float values (boundary magnitudes)
+// bound to int64 / float64 / string fields through value, prop and prefix.  No symbolic
+// arithmetic is involved: the engine executes the real glue code on each member and the
+// native build replays it; it is listed separately from the solver-decided string claim.
+type vScalarHolder struct {
+	IV int64   `value:"${i}"`
+	IP int64   `prop:"i"`
+	IX int64   `prefix:"i"`
+	FV float64 `value:"${f}"`
+	FX float64 `prefix:"f"`
+}
+
+func VerifC17Scalars() {
+	ints := []int{0, 1, -1, 1 << 31, -(1 << 31), 1 << 53, 1<<53 + 1, -(1<<53 + 1), 1<<62 + 1, 9223372036854775807, -9223372036854775808}
+	floats := []float64{0.5, 0.1, 3.141592653589793, 16777217.5, 123456789.125, 0.1234567890123}
+	iv := ints[nd.Choose(len(ints))]
+	fv := floats[nd.Choose(len(floats))]
+	nd.Known("C17/large-integer-through-float64", int(float64(iv)) != iv || iv == 9223372036854775807)
+	cfg := &vCfg{keys: []string{"i", "f"}, vals: []any{iv, fv}}
+	reg := support.DefaultDefinitionRegistry()
+	va := NewValueAwarePostProcessors().(*valueAwarePostProcessors)
+	pa := NewPropertiesAwarePostProcessors().(*propertiesAwarePostProcessors)
+	pa.Configure = cfg
+	cq := vQuoteProc(cfg)
+	h := &vScalarHolder{}
+	nd.Assert(va.PostProcessDefinitionRegistry(reg, h, "h") == nil, "scan ok")
+	nd.Assert(pa.PostProcessDefinitionRegistry(reg, h, "h") == nil, "scan ok")
+	props := reg.GetMetaByName("h").GetConfigurationProperties()
+	for _, p := range []container.InstantiationAwareComponentPostProcessor{cq, pa, va} {
+		_, err := p.PostProcessProperties(props, h, "h")
+		nd.Assert(err == nil, "C17: binding a scalar succeeds")
+		if err != nil {
+			return
+		}
+	}
+	nd.Observe("ints", int(h.IV), int(h.IP), int(h.IX))
+	nd.Assert(h.IX == int64(iv), "C17: binding by prefix gives the field exactly the configured integer")
+	nd.Assert(h.IV == int64(iv), "C17: an integer bound through a value placeholder equals the configured integer")
+	nd.Assert(h.IP == int64(iv), "C17: an integer bound through the prop shorthand equals the configured integer")
+	nd.Assert(h.FX == fv, "C17: binding by prefix gives the field exactly the configured float")
+	nd.Assert(h.FV == fv, "C17: a float bound through a value placeholder equals the configured float")
+	nd.Cover("scalars bound")
+}
